@@ -77,12 +77,12 @@ Definition hello_time (c : cfg) (s : snap) : list N :=
   if sync_schema c then zero_untracked (s_time s) (tracked c)
   else filter_time (s_time s) (tracked c).
 
-(* RemoteHello: what the server memorises as lastPushData. machTick and
-   checksum are NOT set there (stay 0). *)
+(* RemoteHello: what the server memorises as lastPushData (the machine tick
+   too, since the fix of RemoteHello; the checksum is not set there). *)
 Definition hello_data (c : cfg) (s : snap) : tdata :=
   {| d_mtime := Some (hello_time c s);
      d_sum := sum64 (filter_time (s_time s) (tracked c));
-     d_q := s_q s; d_m := 0; d_check := 0 |}.
+     d_q := s_q s; d_m := s_m s; d_check := 0 |}.
 
 (* client side tracked indexes: positions of the tracked names in the
    client's state names *)
